@@ -151,10 +151,14 @@ shape_program!(array_single, "c17many_array_single", 0x66, {
     closer: Signer,
 });
 // ---- every variable-length group after every fixed account ----------------------------------------------------------
+// the two groups also declare how many accounts they may hold: a half-open range (..4 = 0 to 3 accounts) and an inclusive
+// one; the IDL's `Many { min, max }` is inclusive at both ends (lib/props/c17.py MANY_RANGES has the expected bounds)
 shape_program!(two_vecs, "c17many_two_vecs", 0x67, {
     #[decode(arg = 1)]
+    #[idl(arg = (..4, ()))]
     first: Vec<SystemAccount>,
     #[decode(arg = 1)]
+    #[idl(arg = (..=2, ()))]
     second: Vec<Mut<SystemAccount>>,
 });
 shape_program!(nested_tail_last, "c17many_nested_tail_last", 0x68, {
